@@ -122,7 +122,6 @@ Qed.
 
 (** ** rung 1: navigation on a table in the shape of the XPath data model *)
 Record SpecShape : Prop := {
-  sh_no_doctype : forall i c, valid doc i -> In c (child_nodes doc i) -> kind doc c <> KDocumentType;
   sh_child_kind : forall i c, valid doc i -> In c (child_nodes doc i) ->
                   kind doc c <> KAttribute /\ kind doc c <> KDocument;
   sh_refs : forall i, valid doc i -> kind doc i = KEntityReference -> n_data (getd doc i) = DataStr [];
@@ -134,31 +133,32 @@ Let Hwf := inv_wf doc Hinv.
 
 Definition is_container (i : node) : Prop := kind doc i = KDocument \/ kind doc i = KElement.
 
-Lemma xchildren_container i : valid doc i -> is_container i -> xchildren doc i = child_nodes doc i.
+Lemma container_dec i : is_container i \/ ~ is_container i.
 Proof.
-  intros Vi Hc. unfold xchildren.
-  assert (Hf : filter (fun c => negb (nkind_eqb (kind doc c) KDocumentType)) (child_nodes doc i) = child_nodes doc i).
-  { assert (Hall : forall c, In c (child_nodes doc i) -> negb (nkind_eqb (kind doc c) KDocumentType) = true).
-    { intros c Hc'. pose proof (sh_no_doctype Hshape i c Vi Hc') as Hk.
-      destruct (kind doc c); try reflexivity. contradiction. }
-    clear -Hall. induction (child_nodes doc i) as [|c t IH]; cbn [filter]; [reflexivity|].
-    rewrite (Hall c (or_introl eq_refl)). f_equal. apply IH. intros; apply Hall; right; assumption. }
-  destruct Hc as [Hk|Hk]; rewrite Hk; exact Hf.
+  unfold is_container. destruct (kind doc i); try (right; intros [E|E]; discriminate).
+  - left. right. reflexivity.
+  - left. left. reflexivity.
 Qed.
 
-Lemma xchildren_leaf i : valid doc i -> ~ is_container i -> kind doc i <> KAttribute ->
-  xchildren doc i = [] /\ child_nodes doc i = [].
+(** the children of a node are the same in the model ([fn child]) and in the data model *)
+Lemma xp_child_xchildren i : valid doc i -> xp_child doc i = xchildren doc i.
 Proof.
-  intros Vi Hn Ha. split.
-  - unfold xchildren. destruct (kind doc i) eqn:Ek; try reflexivity; exfalso; apply Hn; [right|left]; exact Ek.
-  - apply (sh_leaves Hshape i Vi); [intros E; apply Hn; left; exact E|intros E; apply Hn; right; exact E|exact Ha].
+  intros Vi. unfold xp_child, xchildren.
+  destruct (kind doc i) eqn:Ek; try reflexivity;
+    rewrite (sh_leaves Hshape i Vi) by (rewrite Ek; discriminate); reflexivity.
 Qed.
 
-Theorem axis_child_agrees i : valid doc i -> is_container i ->
-  axis_nodes doc (AxisName AxChild) i = Ok (child_nodes doc i) /\
-  s_axis doc AxChild (Row i) = map Row (child_nodes doc i).
+Lemma xchildren_leaf i : valid doc i -> ~ is_container i -> xchildren doc i = [].
 Proof.
-  intros Vi Hc. split; [reflexivity|]. cbn [s_axis]. rewrite (xchildren_container i Vi Hc). reflexivity.
+  intros Vi Hn. unfold xchildren.
+  destruct (kind doc i) eqn:Ek; try reflexivity; exfalso; apply Hn; [right|left]; exact Ek.
+Qed.
+
+Theorem axis_child_agrees i : valid doc i ->
+  axis_nodes doc (AxisName AxChild) i = Ok (xchildren doc i) /\
+  s_axis doc AxChild (Row i) = map Row (xchildren doc i).
+Proof.
+  intros Vi. split; [cbn [axis_nodes]; rewrite (xp_child_xchildren i Vi); reflexivity|reflexivity].
 Qed.
 
 Theorem axis_attribute_agrees i : kind doc i = KElement ->
@@ -170,45 +170,40 @@ Theorem axis_self_agrees i :
   axis_nodes doc (AxisName AxCurrent) i = Ok [i] /\ s_axis doc AxCurrent (Row i) = [Row i].
 Proof. split; reflexivity. Qed.
 
-(** descendants: the nodes below a container are containers or leaves without children *)
-Lemma container_dec i : is_container i \/ ~ is_container i.
+Lemma xchildren_incl i c : In c (xchildren doc i) -> In c (child_nodes doc i).
 Proof.
-  unfold is_container. destruct (kind doc i); try (right; intros [E|E]; discriminate).
-  - left. right. reflexivity.
-  - left. left. reflexivity.
+  unfold xchildren. destruct (kind doc i); try (intros []); intros H; apply filter_In in H; apply H.
 Qed.
 
-Lemma desc_fuel_agrees : forall fuel i, valid doc i -> kind doc i <> KAttribute ->
+Lemma desc_fuel_agrees : forall fuel i, valid doc i ->
   (length doc - N.to_nat i < fuel)%nat ->
   descendant_fuel doc fuel i = Ok (desc_fuel doc fuel i).
 Proof.
-  induction fuel as [|f IH]; intros i Vi Ha Hlt; [lia|]. cbn [descendant_fuel desc_fuel].
-  destruct (container_dec i) as [Hc|Hn].
-  - rewrite (xchildren_container i Vi Hc).
-    assert (Hch : forall c, In c (child_nodes doc i) ->
-              descendant_fuel doc f c = Ok (desc_fuel doc f c)).
-    { intros c Hc'. destruct (wf_children doc Hwf i c Vi Hc') as [Vc Hic].
-      apply IH; [exact Vc|exact (proj1 (sh_child_kind Hshape i c Vi Hc'))|unfold valid in Vc; lia]. }
-    induction (child_nodes doc i) as [|c t IHt]; cbn [flat_map_res flat_map]; [reflexivity|].
-    rewrite (Hch c (or_introl eq_refl)). cbn [bind].
-    rewrite IHt by (intros; apply Hch; right; assumption). reflexivity.
-  - destruct (xchildren_leaf i Vi Hn Ha) as [E1 E2]. rewrite E1, E2. reflexivity.
+  induction fuel as [|f IH]; intros i Vi Hlt; [lia|]. cbn [descendant_fuel desc_fuel].
+  rewrite (xp_child_xchildren i Vi).
+  assert (Hch : forall c, In c (xchildren doc i) ->
+            descendant_fuel doc f c = Ok (desc_fuel doc f c)).
+  { intros c Hc'. apply xchildren_incl in Hc'. destruct (wf_children doc Hwf i c Vi Hc') as [Vc Hic].
+    apply IH; [exact Vc|unfold valid in Vc; lia]. }
+  induction (xchildren doc i) as [|c t IHt]; cbn [flat_map_res flat_map]; [reflexivity|].
+  rewrite (Hch c (or_introl eq_refl)). cbn [bind].
+  rewrite IHt by (intros; apply Hch; right; assumption). reflexivity.
 Qed.
 
-Theorem axis_descendant_agrees i : valid doc i -> kind doc i <> KAttribute ->
+Theorem axis_descendant_agrees i : valid doc i ->
   axis_nodes doc (AxisName AxDescendant) i = Ok (desc doc i) /\
   s_axis doc AxDescendant (Row i) = map Row (desc doc i).
 Proof.
-  intros Vi Ha. split; [|reflexivity]. cbn [axis_nodes]. unfold descendant, desc, nav_fuel, fuel0.
-  apply desc_fuel_agrees; [exact Vi|exact Ha|lia].
+  intros Vi. split; [|reflexivity]. cbn [axis_nodes]. unfold descendant, desc, nav_fuel, fuel0.
+  apply desc_fuel_agrees; [exact Vi|lia].
 Qed.
 
-Theorem axis_descendant_or_self_agrees i : valid doc i -> kind doc i <> KAttribute ->
+Theorem axis_descendant_or_self_agrees i : valid doc i ->
   axis_nodes doc (AxisName AxDescendantOrSelf) i = Ok (i :: desc doc i) /\
   s_axis doc AxDescendantOrSelf (Row i) = map Row (i :: desc doc i).
 Proof.
-  intros Vi Ha. split; [|reflexivity]. cbn [axis_nodes]. unfold descendant_and_self.
-  destruct (axis_descendant_agrees i Vi Ha) as [H _]. cbn [axis_nodes] in H. rewrite H. reflexivity.
+  intros Vi. split; [|reflexivity]. cbn [axis_nodes]. unfold descendant_and_self.
+  destruct (axis_descendant_agrees i Vi) as [H _]. cbn [axis_nodes] in H. rewrite H. reflexivity.
 Qed.
 
 (** ** string-values *)
@@ -238,13 +233,18 @@ Lemma spec_text_unfold fuel i :
   spec_text (S fuel) i = concat (map (fun c => text_data c ++ spec_text fuel c) (xchildren doc i)).
 Proof. unfold spec_text at 1. cbn [desc_fuel]. apply spec_text_forest. Qed.
 
+Lemma nkind_eqb_true_dt k : nkind_eqb k KDocumentType = true -> k = KDocumentType.
+Proof. destruct k; cbn; intros H; try discriminate; reflexivity. Qed.
+
 (** the string-value of an element in the model is the one of section 5 *)
 Lemma string_value_fuel_agrees : forall fuel i, valid doc i -> kind doc i = KElement ->
   (length doc - N.to_nat i < fuel)%nat ->
   string_value_fuel fuel doc i = Ok (spec_text fuel i).
 Proof.
   induction fuel as [|f IH]; intros i Vi Hk Hlt; [lia|]. cbn [string_value_fuel]. rewrite Hk.
-  rewrite spec_text_unfold. rewrite (xchildren_container i Vi (or_intror Hk)).
+  rewrite spec_text_unfold.
+  assert (Hxc : xchildren doc i = filter (fun c => negb (nkind_eqb (kind doc c) KDocumentType)) (child_nodes doc i)).
+  { unfold xchildren. rewrite Hk. reflexivity. }
   assert (Hch : forall c, In c (child_nodes doc i) ->
      match kind doc c with
      | KCData | KElement | KExpandedText | KText => string_value_fuel f doc c
@@ -256,7 +256,7 @@ Proof.
     - destruct Hcc as [Ek|Ek]; [contradiction|].
       rewrite Ek. unfold text_data. rewrite Ek. cbn [is_text_kind app].
       apply IH; [exact Vc|exact Ek|unfold valid in Vc; lia].
-    - destruct (xchildren_leaf c Vc Hnc Ha) as [E1 E2].
+    - pose proof (xchildren_leaf c Vc Hnc) as E1.
       assert (Hst : spec_text f c = []).
       { unfold spec_text. destruct f; cbn [desc_fuel]; [reflexivity|]. rewrite E1. reflexivity. }
       rewrite Hst, app_nil_r. unfold text_data.
@@ -273,9 +273,13 @@ Proof.
         try (exfalso; apply Hnc; right; exact Ek);
         try (exfalso; apply Hnc; left; exact Ek).
       unfold row_data. rewrite (sh_refs Hshape c Vc Ek). reflexivity. }
-  clear -Hch. induction (child_nodes doc i) as [|c t IHt]; cbn [map concat_res concat]; [reflexivity|].
+  rewrite Hxc. clear -Hch Hwf Hshape. induction (child_nodes doc i) as [|c t IHt]; cbn [map concat_res concat filter]; [reflexivity|].
   rewrite (Hch c (or_introl eq_refl)). cbn [bind].
-  rewrite IHt by (intros; apply Hch; right; assumption). reflexivity.
+  rewrite IHt by (intros; apply Hch; right; assumption). cbn [bind].
+  destruct (nkind_eqb (kind doc c) KDocumentType) eqn:Ed; cbn [negb map concat]; [|reflexivity].
+  (* a document type child contributes no text on either side *)
+  apply nkind_eqb_true_dt in Ed. unfold text_data, spec_text. rewrite Ed. cbn [is_text_kind app].
+  destruct f; cbn [desc_fuel]; [reflexivity|]. unfold xchildren. rewrite Ed. reflexivity.
 Qed.
 
 Theorem string_value_agrees i : valid doc i -> kind doc i = KElement ->
@@ -301,8 +305,8 @@ End Refine.
 
 (** ** a decision procedure for [SpecShape] *)
 Definition row_shape_b (doc : xdoc) (i : node) : bool :=
-  forallb (fun c => negb (nkind_eqb (kind doc c) KDocumentType) && negb (nkind_eqb (kind doc c) KAttribute)
-                    && negb (nkind_eqb (kind doc c) KDocument)) (child_nodes doc i)
+  forallb (fun c => negb (nkind_eqb (kind doc c) KAttribute) && negb (nkind_eqb (kind doc c) KDocument))
+          (child_nodes doc i)
   && (negb (nkind_eqb (kind doc i) KEntityReference) ||
       match n_data (getd doc i) with DataStr [] => true | _ => false end)
   && (nkind_eqb (kind doc i) KDocument || nkind_eqb (kind doc i) KElement || nkind_eqb (kind doc i) KAttribute
@@ -326,12 +330,7 @@ Proof.
   - intros i c Vi Hc. specialize (Hrow i Vi). unfold row_shape_b in Hrow.
     apply andb_prop in Hrow. destruct Hrow as [Hrow _]. apply andb_prop in Hrow. destruct Hrow as [Hrow _].
     rewrite forallb_forall in Hrow. specialize (Hrow c Hc).
-    apply andb_prop in Hrow. destruct Hrow as [Hrow _]. apply andb_prop in Hrow. destruct Hrow as [Hrow _].
-    apply nkind_eqb_false. apply negb_true_iff. exact Hrow.
-  - intros i c Vi Hc. specialize (Hrow i Vi). unfold row_shape_b in Hrow.
-    apply andb_prop in Hrow. destruct Hrow as [Hrow _]. apply andb_prop in Hrow. destruct Hrow as [Hrow _].
-    rewrite forallb_forall in Hrow. specialize (Hrow c Hc).
-    apply andb_prop in Hrow. destruct Hrow as [Hrow H3]. apply andb_prop in Hrow. destruct Hrow as [_ H2].
+    apply andb_prop in Hrow. destruct Hrow as [H2 H3].
     split; apply nkind_eqb_false; apply negb_true_iff; assumption.
   - intros i Vi Hk. specialize (Hrow i Vi). unfold row_shape_b in Hrow.
     apply andb_prop in Hrow. destruct Hrow as [Hrow _]. apply andb_prop in Hrow. destruct Hrow as [_ Hrow].
